@@ -597,8 +597,9 @@ func runC25RT(c c25RTCase) *Violation {
 }
 
 func TestC25(t *testing.T) {
-	Ev.Rule = "truth phase: abstract boolean formulas over 5 atoms (depth <= 3; empty AND/OR, nil-condition and unknown nodes) built through the public constructors (flattening), raw structs, or QueryBuilder call sequences, for bloom, regex and prefilter trees; ONE query over a fixed 32-row dataset (atom i true exactly on rows with bit i; one row per block so prefilters are exact) yields the full truth table, compared with the formula; the Query is then round-tripped through JSON (same results, same re-marshal). Builder sequences where Match/MatchRegex follows chained conditions accept both documented-compatible readings. roundtrip phase: arbitrary generated bloom/regex/prefilter trees: re-marshal equality and identical evaluation (independent oracle on generated rows; EvaluateDataBlockMetadata on generated block metadata). Non-trivial (truth phase): depth>=2 with a flattenable same-type child or an empty/nil/unknown node, or a builder script of >=3 calls; distinct by the Query's JSON."
+	Ev.Rule = "truth phase: abstract boolean formulas over 5 atoms (depth <= 3; empty AND/OR, nil-condition and unknown nodes) built through the public constructors (flattening), raw structs, or QueryBuilder call sequences, for bloom, regex and prefilter trees; ONE query over a fixed 32-row dataset (atom i true exactly on rows with bit i; one row per block so prefilters are exact) yields the full truth table, compared with the formula; the Query is then round-tripped through JSON (same results, same re-marshal). Builder sequences where Match/MatchRegex follows chained conditions accept both documented-compatible readings. roundtrip phase: arbitrary generated bloom/regex/prefilter trees: re-marshal equality and identical evaluation (independent oracle on generated rows; EvaluateDataBlockMetadata on generated block metadata). shared phase: ONE expression value (from a constructor, from JSON decoding, or append-built with spare capacity) used for 2-4 builder chains / And / Or calls (builder calls optionally interleaved); every derived tree must still mean its own combination after all were built and the shared value must be unchanged. Non-trivial (truth phase): depth>=2 with a flattenable same-type child or an empty/nil/unknown node, or a builder script of >=3 calls; distinct by the Query's JSON."
 	Ev.Assumptions = []string{"Match/MatchRegex after earlier chained conditions: either 'replace' or 'AND' reading accepted (documentation does not decide)", "MatchPrefilter is a setter (last wins)"}
 	runChecks(t, "truth", 2500, 100000, genC25(), runC25)
 	runChecks(t, "roundtrip", 1500, 60000, genC25RT(), runC25RT)
+	runChecks(t, "shared", 1500, 60000, genC25Shared(), runC25Shared)
 }
